@@ -379,6 +379,28 @@ def _build_multi(rng, ctx, det, integer=False):
         items.append((ball, con, Force(m * GRAV, ball, name=f"grav{i}"), {"mu": mus[i], "m": m, "scenario": scen}))
     for ball, _, grav, _ in items:
         system.add(ball, grav)
+    if not integer and rng.random() < 0.5:
+        # a rider: a second body carried by one of the (rigid) balls through a joint - its weight reaches the ground only
+        # through the joint AND the contact, so the returned joint forces depend on the contact forces
+        from cardillo.constraints import RigidConnection, Revolute, Spherical
+        rb = [it for it in items if it[0].__class__.__name__ == "RigidBody"]
+        if rb:
+            ball, _, _, inf = rb[int(rng.integers(len(rb)))]
+            m2 = float(inf["m"] * rng.uniform(0.2, 1.5))
+            pos2 = ball.q0[:3] + float(rng.uniform(0.5, 1.0)) * n + 0.1 * rng.normal() * t1
+            P2 = rng.normal(size=4); P2 /= np.linalg.norm(P2)
+            rider = RigidBody(m2, 0.1 * m2 * np.diag(rng.uniform(0.5, 1.5, size=3)), q0=np.concatenate([pos2, P2]),
+                              u0=np.concatenate([ball.u0[:3], np.zeros(3)]), name="rider")
+            jk = ["RigidConnection", "Revolute", "Spherical"][int(rng.integers(3))]
+            if jk == "RigidConnection":
+                joint = RigidConnection(ball, rider, name="rider_joint")
+            elif jk == "Revolute":
+                joint = Revolute(ball, rider, int(rng.integers(3)), r_OJ0=0.5 * (ball.q0[:3] + pos2), name="rider_joint")
+            else:
+                joint = Spherical(ball, rider, r_OJ0=0.5 * (ball.q0[:3] + pos2), name="rider_joint")
+            system.add(rider, Force(m2 * GRAV, rider, name="grav_rider"), joint)
+            det["rider"] = {"joint": jk, "m": m2, "on": ball.name}
+            ctx.cls(f"multi:rider:{jk}")
     order = rng.permutation(nb)
     for i in order:
         system.add(items[int(i)][1])
